@@ -95,7 +95,7 @@ def _has_uf(e):
         t = stack.pop()
         if t.get_id() in seen: continue
         seen.add(t.get_id())
-        if z3.is_const(t) and t.decl().kind() == z3.Z3_OP_UNINTERPRETED and t.decl().name().startswith("uf_"):
+        if z3.is_const(t) and t.decl().kind() == z3.Z3_OP_UNINTERPRETED and t.decl().name().startswith(("uf_", "ufdt_")):
             return True
         stack.extend(t.children())
     return False
@@ -118,6 +118,8 @@ def _f_hex(m, e):
     raise symx.HarnessError(f"cannot evaluate float {e} -> {v}")
 
 def _i_val(m, e):
+    if m is not None and not z3.is_bv_value(e) and _has_uf(e):
+        return UF_WILDCARD
     v = _ev(m, e)
     if not z3.is_bv_value(v): raise symx.HarnessError(f"cannot evaluate int {e}")
     return v.as_signed_long()
@@ -129,6 +131,7 @@ def _b_val(m, e):
     raise symx.HarnessError(f"cannot evaluate bool {e}")
 
 def _s_val(m, c):
+    if type(c).__name__ in ("StrfToken", "ReToken"): return UF_WILDCARD
     if isinstance(c, SymStr): c = c.c
     if isinstance(c, str): return c
     if m is None:
@@ -164,11 +167,12 @@ def encode(t, m=None):
     if isinstance(t, (SymDT, SymTD)):
         key = "M" if isinstance(t, SymDT) else "m"
         v = _i_val(m, t.e); unit = t.unit
+        if v == UF_WILDCARD: return v
         if v == INT64_MIN: return {key: v, "u": "generic"}
         if unit in ("s", "ms") or (key == "m" and unit in ("D", "h", "m")):
             v *= symx._UNIT_FACTOR[unit]; unit = "us"
         return {key: v, "u": unit}
-    if isinstance(t, (SymStr, StrCell)): return _s_val(m, t)
+    if isinstance(t, (SymStr, StrCell)) or type(t).__name__ in ("StrfToken", "ReToken"): return _s_val(m, t)
     if isinstance(t, (bool, str)): return t
     if isinstance(t, int): return t
     if isinstance(t, float):
@@ -184,6 +188,8 @@ def encode(t, m=None):
                 "obsolete": bool(t.obsolete), "group": list(t.group), "item_cls": t.item_cls}
     if isinstance(t, NpScalar): return {"np": encode(t.value, m)}
     if isinstance(t, _dtm.timedelta): return {"td": t // _dtm.timedelta(microseconds=1)} if not CANON[0] else {"m": t // _dtm.timedelta(microseconds=1), "u": "us"}
+    if type(t).__name__ in ("ReResult",): return UF_WILDCARD
+    if type(t).__name__ == "SymPyDate": return encode(SymDT(t.ticks, t.unit), m)
     if isinstance(t, Raised): return {"exc": t.type, "msg": t.msg}
     if isinstance(t, Opaque): return {"opaque": t.tag}
     if isinstance(t, list): return {"l": [encode(x, m) for x in t]}
